@@ -88,6 +88,43 @@ def _try_load(loader, path, shared=False):
     return desc
 
 
+def big_file(rep, d):
+    """A file of about 1 MB (a table above any 'small file' special case): the complete file
+    loads; then it is cut shorter and shorter IN PLACE (os.truncate): every offset of the last
+    8 kB and every 4099th offset before that."""
+    for kind, args in (("linear", [65536, 4]),) + ((("log16", [131072, 4]),) if rep.tier == "thorough" else ()):
+        sk = SK.make(kind, *args)
+        for i in range(50):
+            sk.add(b"key-%d" % i, 1 + i)
+        full = os.path.join(d, f"big-{kind}.npz")
+        sk.save(full)
+        n = os.path.getsize(full)
+        case0 = {"kind": "big", "kind_": kind, "args": list(args)}
+        for lname, loader in _loaders(kind):
+            try:
+                got = loader(full)
+                if SK.persist_diff(sk, got):
+                    rep.violation(dict(case0, cut=n), f"big {kind}: complete file loads to a different sketch")
+                del got
+            except Exception as e:
+                rep.violation(dict(case0, cut=n), f"big {kind}: the complete {n}-byte file does not load: "
+                                                  f"{type(e).__name__}: {e}")
+        cuts = list(range(n - 1, max(n - 8193, 0), -1)) + list(range(max(n - 8193, 0), 0, -4099)) + [0]
+        loaded = 0
+        for cut in cuts:
+            os.truncate(full, cut)
+            for lname, loader in _loaders(kind):
+                r = _try_load(loader, full)
+                rep.evals()
+                if r is not None:
+                    loaded += 1
+                    rep.violation(dict(case0, cut=cut, loader=lname),
+                                  f"big {kind}: {lname} loader returned a {r} from the first {cut} of "
+                                  f"{n} bytes (file cut in place)")
+            rep.nontrivial((f"big-{kind}", cut))
+        rep.part(f"big-{kind}", file_bytes=n, prefixes=len(cuts), loaded=loaded)
+
+
 def run(rep):
     quiet_shm()
     d = tmpdir()
@@ -162,6 +199,7 @@ def run(rep):
                 f.write(blob)
             rep.part(name, kind=kind, args=list(args), file_bytes=n, prefixes=n, loaded=bad)
             rep.sample({"subject": name, "kind": kind, "file_bytes": n, "cut": n // 2})
+        big_file(rep, d)
     finally:
         shutil.rmtree(d, ignore_errors=True)
     rep.set(
@@ -175,6 +213,27 @@ def run(rep):
 
 def replay(case):
     quiet_shm()
+    if case["kind"] == "big":
+        d = tmpdir()
+        try:
+            kind, args = case["kind_"], case["args"]
+            sk = SK.make(kind, *args)
+            for i in range(50):
+                sk.add(b"key-%d" % i, 1 + i)
+            full = os.path.join(d, "big.npz")
+            sk.save(full)
+            n = os.path.getsize(full)
+            if case["cut"] >= n:
+                try:
+                    got = dict(_loaders(kind))["class"](full)
+                    return bool(SK.persist_diff(sk, got)), {"file_bytes": n}
+                except Exception as e:
+                    return True, {"complete_file_load_raised": type(e).__name__, "file_bytes": n}
+            os.truncate(full, case["cut"])
+            r = _try_load(dict(_loaders(kind))[case.get("loader", "class")], full)
+            return r is not None, {"returned": r, "file_bytes": n, "cut": case["cut"]}
+        finally:
+            shutil.rmtree(d, ignore_errors=True)
     name, kind, args = case["subject"], case["kind_"], tuple(case["args"])
     d = tmpdir()
     try:
